@@ -34,8 +34,15 @@ func vMakeLeader(r *Raft, tag string, selfIdx int) {
 		if i == selfIdx {
 			continue
 		}
+		// the replication routine's copy of the server record is refreshed only when the ADDRESS changes
+		// (startStopReplication), so its suffrage may be out of date after a promotion or demotion
+		peer := s
+		stale := ServerSuffrage(vInt(tag + ".peerSuffrage"))
+		vAssume(stale >= 0)
+		vAssume(stale <= 2)
+		peer.Suffrage = stale
 		ls.replState[s.ID] = &followerReplication{
-			currentTerm: r.currentTerm, nextIndex: vU64(tag + ".nextIndex"), peer: s, commitment: ls.commitment,
+			currentTerm: r.currentTerm, nextIndex: vU64(tag + ".nextIndex"), peer: peer, commitment: ls.commitment,
 			stopCh: make(chan uint64, 1), triggerCh: make(chan struct{}, 1), triggerDeferErrorCh: make(chan *deferError, 1),
 			lastContact: vTime(tag + ".lastContact"), failures: vU64(tag + ".failures"),
 			notifyCh: make(chan struct{}, 1), notify: make(map[*verifyFuture]struct{}), stepDown: ls.stepDown,
